@@ -228,13 +228,14 @@ def align(insig, outsig):
     return [(a.text, b.text) for a, b in zip(insig, outsig) if a.kind == 'name' and b.kind == 'name']
 
 
-def check_program_map(prog, src, config, res, fam):
+def check_program_map(prog, src, config, res, fam, out=None):
     res.evaluations += 1
     case = {'src': src, 'config': config, 'family': fam}
-    try:
-        obj, out = c01.minify(src, config)
-    except Exception:
-        return
+    if out is None:
+        try:
+            obj, out = c01.minify(src, config)
+        except Exception:
+            return
     try:
         insig = reflex.significant(reflex.lex(src))
         outsig = reflex.significant(reflex.lex(out))
@@ -279,6 +280,45 @@ EXTRA_PROGRAMS = [b'a=1 b=2 c=a+b\n', b'foo=1 a=foo b=a\n', b'zz=1 x=zz a=x\n', 
                  [b' '.join(b'v%d=%d' % (i, i) for i in range(n)) + b'\n' for n in (27, 60, 800)]
 
 
+def cli_batch(res):
+    """The same map properties on what `p8tool luamin` / `p8tool build --lua-minify` write, per configuration."""
+    import shutil
+    from pico8 import tool
+    from pico8.game import file as p8file
+    from lib import carts
+    d = tempfile.mkdtemp(prefix='c02_')
+    try:
+        n = 0
+        for src in EXTRA_PROGRAMS[:9]:
+            for config in c01.CONFIGS:
+                n += 1
+                flags = {'default': [], 'keep_all': ['--keep-all-names'],
+                         'keep_file': ['--keep-names-from-file', c01.keep_file_path()]}[config]
+                path = os.path.join(d, 'm%d.p8' % n)
+                p8file.to_file(carts.make_game({}, version=33, code_lines=[src]), path)
+                luaf = os.path.join(d, 'b%d.lua' % n)
+                open(luaf, 'wb').write(src)
+                outp = os.path.join(d, 'b%d.p8' % n)
+                for what, args, result in (('luamin', ['luamin'] + flags + [path], os.path.join(d, 'm%d_fmt.p8' % n)),
+                                           ('build', ['build', outp, '--lua', luaf, '--lua-minify'] + flags, outp)):
+                    try:
+                        rc_ = tool.main(args)
+                        code = b''.join(p8file.from_file(result).lua.to_lines())
+                    except Exception as e:
+                        res.violation('C02|cli|%s|raise|%s' % (what, type(e).__name__), 'p8tool %s on %r raised %r' % (what, src, e),
+                                      {'cli': what, 'src': src, 'config': config})
+                        continue
+                    r = ShardResult()
+                    check_program_map(None, src, config, r, 'cli-' + what, out=code)
+                    for sig, v in r.violations.items():
+                        res.violation(sig.replace('C02|program|', 'C02|cli-%s|' % what, 1), v[0] + ' [via p8tool %s]' % what,
+                                      {'cli': what, 'src': src, 'config': config})
+                    r.violations = {}
+                    res.merge(r)
+    finally:
+        shutil.rmtree(d, ignore_errors=True)
+
+
 def shards(tier, seed):
     items = []
     keeps = []
@@ -294,6 +334,7 @@ def shards(tier, seed):
     items += [('ids', lo, min(nid, lo + step)) for lo in range(0, nid, step)]
     items.append(('alloc', BOUNDS[tier]['alloc']))
     items.append(('extra',))
+    items.append(('cli',))
     items += c08.program_shards(tier, seed, tag='c02')
     return items
 
@@ -327,6 +368,9 @@ def run_shard(item):
     elif kind == 'alloc':
         check_alloc(item[1], res)
         check_alloc(item[1], res, keep=successors_of_reserved(26 ** 3))
+    elif kind == 'cli':
+        cli_batch(res)
+        res.sample({'cli': 'p8tool luamin / build --lua-minify x {default, --keep-all-names, --keep-names-from-file}'})
     elif kind == 'extra':
         for src in EXTRA_PROGRAMS:
             for cfg in c01.CONFIGS:
@@ -358,7 +402,9 @@ def finalize(total):
 
 def replay(case):
     res = ShardResult()
-    if 'hist' in case:
+    if 'cli' in case:
+        cli_batch(res)
+    elif 'hist' in case:
         check_history(case['keep'], case['keep_all'], tuple(case['hist']), res)
     elif 'src' in case:
         check_program_map(None, case['src'], case['config'], res, case.get('family', 'extra'))
